@@ -206,6 +206,37 @@ Definition judge (chunks : list expr) (reported : list (str * loc)) : Z :=
   else if negb (forallb (fun r => occ_in r want) reported) then 2
   else 0.
 
+(** ------------------------------------------------------------------ known finding (known/C23.json, "generic-instantiated")
+    The checker reads the callee's type *at the call site*. For a subroutine declared with a generic parameter
+    (`gen! |T| x: T`) that type may already be instantiated (`T` linked to `List!(Int, _)` by later uses of the
+    argument), and then the argument is moved although the declared type `T` is not a mutable type; at other call
+    sites of the same subroutine it is not. The class: programs that pass a mutable-typed variable directly to a
+    subroutine declared generic ([gen]: the names of those subroutines, known to whoever wrote the program). *)
+Section Known.
+  Variable gen : list str.
+  Definition is_gen_callee (e : expr) : bool :=
+    match e with EVar _ x _ => existsb (str_eqb x) gen | _ => false end.
+  Definition is_mut_var (e : expr) : bool :=
+    match e with EVar _ _ m => m | _ => false end.
+  Fixpoint known_in (e : expr) : bool :=
+    match e with
+    | ELit | EVar _ _ _ | ECollTodo => false
+    | EAttr o => known_in o
+    | ECall callee _ pos star _ kws kwstar =>
+      (is_gen_callee callee && (existsb is_mut_var pos || existsb is_mut_var kws)) ||
+      known_in callee || existsb known_in pos || existsb known_in star || existsb known_in kws || existsb known_in kwstar
+    | EBinOp l r => known_in l || known_in r
+    | EUnary a => known_in a
+    | EColl _ es => existsb known_in es
+    | ELambda _ _ ds body => existsb known_in ds || existsb known_in body
+    | EDef _ _ _ _ ds body => existsb known_in ds || existsb known_in body
+    | EClassDef hs ms => existsb known_in hs || existsb known_in ms
+    | ETypeAsc a => known_in a
+    | EOther subs => existsb known_in subs
+    end.
+End Known.
+Definition Known_C23 (gen : list str) (chunks : list expr) : bool := existsb (known_in gen) chunks.
+
 (** ------------------------------------------------------------------ what the theorems assume about a lowered tree
     (each clause is something the earlier compiler stages guarantee; the check evaluates [wf] on every dumped tree)
       * no node the checker cannot handle (`todo!()`): comprehension literals, a callee type outside
